@@ -131,7 +131,18 @@ def build_foreign(specs, r):
     return bytes(img), style, chains
 
 
+def own_violations(ctx):
+    return sum(v["count"] for v in ctx.violations.values() if v["record"]["property"] == ctx.prop)
+
+
 def run_case(case, ctx):
+    m0, v0 = ctx.monitors.get("M8.disk-post.success", 0), own_violations(ctx)
+    _run_case(case, ctx)
+    if ctx.prop == "C08" and ctx.monitors.get("M8.disk-post.success", 0) > m0 and own_violations(ctx) == v0:
+        ctx.nontriv(("fsck-clean", case["id"]))
+
+
+def _run_case(case, ctx):
     from cocoasm.virtualfiles.disk import DiskFile
     specs = case["files"]
     wit = {"show": case["id"] + " [" + "; ".join(G.brief(s) for s in specs)[:100] + "]", "files": [dict(s, data=s["data"][:40]) for s in specs]}
@@ -170,7 +181,8 @@ def run_case(case, ctx):
     ok = compare_listing(ctx, "C07", form, listed, stored, wit, check_ext=True)
     ctx.outcome("ok" if ok else "mismatch")
     if ok:
-        ctx.nontriv(case["id"])
+        if ctx.prop != "C08":
+            ctx.nontriv(case["id"])
         for s in stored:
             ctx.cell("%s/%s/%s" % (form.split(".")[0], s["kind"], len_class(s)))
         if len(ctx.samples) < 3:
